@@ -12,7 +12,7 @@ import shutil
 import tempfile
 from contextlib import redirect_stderr, redirect_stdout
 
-from ..ch import S, Fail, absorb, run_jobs
+from ..ch import S, Fail, absorb, run_jobs, untraced
 from ..common import run_native
 
 FUNCTIONS = [
@@ -242,6 +242,67 @@ def history(k, ops, first=None, fresh_file=None):
     return harness
 
 
+# ---- a second factory: a group linked (no compute_fn) into an init arg that the selectable classes type differently -------------
+
+LINK_OPS = ["struct", "dict", "struct_obj", "dict_obj", "no_class", "defaults"]
+
+
+def _link_factory():
+    from jsonargparse import ArgumentParser
+
+    from ..fixtures import DataGroup, LModel
+
+    p = ArgumentParser(exit_on_error=False)
+    p.add_class_arguments(DataGroup, "data")
+    p.add_subclass_arguments(LModel, "model", required=False)
+    p.link_arguments("data", "model.init_args.data_cfg")
+    return p
+
+
+def _link_run(parser, op):
+    from jsonargparse import ArgumentError
+
+    try:
+        if op == "struct":
+            r = parser.parse_args(["--model=LModelStruct", "--data.batch=2"])
+        elif op == "dict":
+            r = parser.parse_args(["--model=LModelDict", "--data.batch=3"])
+        elif op == "struct_obj":
+            r = parser.parse_object({"model": {"class_path": "vf.fixtures.LModelStruct"}, "data": {"shuffle": True}})
+        elif op == "dict_obj":
+            r = parser.parse_object({"model": {"class_path": "vf.fixtures.LModelDict"}, "data": {"shuffle": True}})
+        elif op == "no_class":
+            r = parser.parse_args(["--data.batch=5"])
+        else:
+            r = parser.get_defaults()
+        return ("ok", _plain(r), parser.dump(r) if op != "defaults" else "")
+    except ArgumentError as ex:
+        return ("ArgumentError", str(ex)[:300], "")
+
+
+def link_history(k=2):
+    for op in LINK_OPS:
+        _link_run(_link_factory(), op)
+
+    def harness():
+        hist = []
+        with untraced():
+            reused = _link_factory()
+        for step in range(k):
+            op = LINK_OPS[S.choice(f"op{step}", len(LINK_OPS))]
+            hist.append(op)
+            S.note(op)
+            with untraced():
+                got = _norm(_link_run(reused, op))
+                want = _norm(_link_run(_link_factory(), op))
+            S.note("outcome:" + want[0])
+            if not _same_outcome(got, want):
+                return Fail("history:outcome-differs-from-fresh-parser", history=list(hist), step=step, reused=_short(got), fresh=_short(want))
+        return True
+
+    return harness
+
+
 def _short(o):
     return [str(x)[:120] for x in o]
 
@@ -275,6 +336,7 @@ def main(rep, tier):
                    "get_defaults", "parse_args_class", "help"]
         for i in range(len(reduced)):
             jobs.append(dict(module="c09", func="history", kwargs=dict(k=3, ops=reduced, first=i, fresh_file=fresh_file), timeout=3000))
+    jobs.append(dict(module="c09", func="link_history", kwargs=dict(k=2 if tier == "quick" else 3), timeout=600))
     results = run_jobs(jobs)
     fails = absorb(rep, results, require_tags=tuple(ops) + ("outcome:ok", "outcome:ArgumentError", "outcome:exit"))
     groups = {}
@@ -285,7 +347,7 @@ def main(rep, tier):
     for (cls, poisoned), samples in groups.items():
         reported = False
         for smp in samples[:6]:
-            payload = dict(module="c09", func="history", kwargs=smp["kwargs"], ordered=smp["values"].get("__order__", []))
+            payload = dict(module="c09", func=smp["harness"], kwargs=smp["kwargs"], ordered=smp["values"].get("__order__", []))
             r = run_native("ch", "replay_path", payload)
             vals = dict(after_failed_print_config=poisoned, history=json.dumps(smp["info"].get("history")), info=json.dumps(smp["info"], default=repr))
             if not r.get("reproduced"):
